@@ -49,7 +49,13 @@ class ZConfigParser:
         self.defines = defines
 
     def nextline(self):
-        line = self.file.readline()
+        try:
+            line = self.file.readline()
+        except UnicodeDecodeError as e:
+            # a text-mode file whose bytes cannot be decoded: the line
+            # that cannot be read is the one after the last good one
+            self.lineno += 1
+            self.error("cannot decode the text of the resource: %s" % e)
         if line:
             self.lineno += 1
             return False, line.strip()
